@@ -62,7 +62,6 @@ from ..network.network import Network
 from ..settings import Settings
 from ..session import Session
 from ..tasks import BackgroundTask
-from ..utils import cancel_task
 
 
 logger = logging.getLogger(__name__)
@@ -562,8 +561,11 @@ class UserTrackingManager:
 
             if tracked_user.flags == TrackingFlag(0):
                 # Ensure retry does not get scheduled again if we no longer
-                # desire to track the user
-                await cancel_task(tracked_user.retry_task)
+                # desire to track the user. The cancelled retry task is not
+                # awaited: a cancellation of this task arriving during such an
+                # await would be swallowed and the task would survive `stop`
+                if tracked_user.retry_task:
+                    tracked_user.retry_task.cancel()
 
                 # Prevent RemoveUser from being called multiple times if there
                 # are multiple entries on the queue
@@ -691,7 +693,8 @@ class UserTrackingManager:
         if state == TrackingState.RETRY_PENDING:
             # Cancelling probably shouldn't be necessary but just doing
             # it for safety
-            await cancel_task(tracked_user.retry_task)
+            if tracked_user.retry_task:
+                tracked_user.retry_task.cancel()
             tracked_user.retry_task = asyncio.create_task(
                 self._request_retry(tracked_user, retry_timeout))
 
